@@ -333,6 +333,17 @@ func ActionOfKind(r *prng.R, kind string, o ActOpt) *rec.Rec {
 		if rp&32 != 0 {
 			a.Set("proto_max", r.Bits(16))
 		}
+		if r.Chance(1, 4) { // single-value ranges: the upper bound equals the lower one
+			if rp&3 == 3 {
+				a.SetB("ipv4_max", a.Bytes("ipv4_min"))
+			}
+			if rp&12 == 12 {
+				a.SetB("ipv6_max", a.Bytes("ipv6_min"))
+			}
+			if rp&48 == 48 {
+				a.Set("proto_max", a.U("proto_min"))
+			}
+		}
 		p := r.Perm(6)
 		ord := make([]byte, 6)
 		for i := range p {
